@@ -32,6 +32,9 @@ def json_specials():
                                   f("in", "Inner", "struct"), f("pi", "*Inner", "pointer"), f("ms", "map[string]Inner", "map"), f("ss", "[]Inner", "slice")], json=True, labelled=False, tparams=[]),
         dict(name="JTags", fields=[f("a", "int", "basic", 'json:"alpha"'), f("b", "string", "basic", 'json:"beta,omitempty"'), f("c", "[]int", "slice", 'json:"c"'),
                                    f("d", "fp.Option[string]", "option", 'json:"delta"'), f("e", "bool", "basic", 'yaml:"e"')], json=True, labelled=False, tparams=[]),
+        dict(name="JYaml", fields=[f("y1", "[]int", "slice", 'yaml:"y1"'), f("y2", "fp.Option[int]", "option", 'db:"y2"'), f("y3", "*int", "pointer", 'xml:"y3"'),
+                                   f("y4", "string", "basic", 'yaml:"y4"'), f("y5", "map[string]int", "map", 'yaml:"y5,omitempty"'), f("y6", "int", "basic", 'yaml:"y6"')],
+             json=True, labelled=False, tparams=[]),
         dict(name="JOne", fields=[f("only", "[]int", "slice")], json=True, labelled=True, tparams=[]),
         dict(name="JPub", fields=[dict(vis="public", name="Pub1", typ="int", kind="basic", tag=""), f("priv", "[]string", "slice"), dict(vis="public", name="Pub3", typ="map[string]int", kind="map", tag="")],
              json=True, labelled=False, tparams=[]),
